@@ -51,6 +51,10 @@ claim("C19", "dominance and value-flow rules on Execute and the engine entry poi
       "Decides that every step start, go statement and run-state construction in Execute is dominated by the success edges of input validation and normalisation, that the data model's input is Serialize(Unserialize(caller input)) and written once, "
       "and that the engine entry point passes the decoded document unchanged (C19.R1-R3). What normalisation does and what steps observe are not decided.", NOTE)
 
+claim("C11", "panic/assertion site enumeration with recomputed justifications, call-graph SCC analysis with a decreasing-measure search, error-propagation path rules",
+      "Decides that every explicit panic / unchecked assertion / ignored lookup result in the parse and prepare paths is justified by a dominating validation (C11.R1, R1b), that every recursive component has a parameter that "
+      "strictly decreases (or a visited-set guard) on every cycle (R2), and that file and context errors reach the caller (R3). Totality of yaml.v3, the expression parser and pluginsdk are not decided.", NOTE)
+
 ALL = ["C%02d" % i for i in range(1, 21)]
 for pid in ALL:
     if pid not in P:
